@@ -75,6 +75,7 @@ def dispatch_fn(gid, rname, rpath, emit, atomic_pairs):
         "acc" => acc_common::run_acc::<t_{gid}::Rule, {rpath}>(f, a, b, i),
         "trav" => {trav},
         "eqh" => acc_common::run_eqh::<t_{gid}::Rule, {rpath}>(a, i, noise_{gid}),
+        "uprint" => acc_common::run_uprint(i),
         _ => run_typed::<t_{gid}::Rule, {rpath}>(e, f, a, b, i),
     }}
 }}
@@ -118,18 +119,34 @@ incremental = false
     if rc != 0:
         raise RuntimeError("acc_arity tool does not build against the generator:\n" + err[-3000:])
     exe = os.path.join(TARGET_DIR or corpus.TARGET, "debug", "acc_arity")
-    inp = "".join(f"{g['gid']}\t{hexs(g['text'])}\n" for g in grammars)
+    inp = "".join(f"{g['gid']}\t{hexs(g['text'])}\t{hexs(g.get('attrs', ''))}\n" for g in grammars)
     out = subprocess.run([exe], input=inp, capture_output=True, text=True).stdout
     by = {}
     for line in out.splitlines():
         f = line.split("\t")
-        if len(f) >= 4 and f[1] == "OK":
-            by[f[0]] = [x for x in f[2][len("local="):].split(",") if x]
+        if len(f) >= 5 and f[1] == "OK":
+            by[f[0]] = [[x for x in fld.split("=", 1)[1].split(",") if x] for fld in f[2:5]]
+    ar = lambda x: ("Seq", int(x[3:])) if x.startswith("Seq") else ("Choice", int(x[6:]))
     for g in grammars:
         if g["gid"] not in by:
             raise RuntimeError(f"acc_arity: the generator gave no module for grammar {g['gid']}")
-        g["local_arities"] = [("Seq", int(x[3:])) if x.startswith("Seq") else ("Choice", int(x[6:])) for x in by[g["gid"]]]
+        local, lib, uni = by[g["gid"]]
+        g["local_arities"] = [ar(x) for x in local]
+        g["lib_arities"] = [ar(x) for x in lib]
+        g["uni_types"] = uni
     return grammars
+
+
+def build_env(derived):
+    """What acc_common has to implement its show-trait for (its build.rs reads these variables): the library
+    SeqN / ChoiceN the generator re-exports for the corpus grammars, the arities 2..12 the raw instantiations
+    (rawgen.RustPrinter) and the runtime's built-in aliases name, and the Unicode property types in use."""
+    ars = {(k, n) for n in range(2, 13) for k in ("Seq", "Choice")}
+    uni = set()
+    for g in derived:
+        ars |= set(g.get("lib_arities", []))
+        uni |= set(g.get("uni_types", []))
+    return {"ACC_LIB_ARITIES": ",".join(f"{k}{n}" for k, n in sorted(ars)), "ACC_UNICODE": ",".join(sorted(uni))}
 
 
 def choice_macro_args(n):
@@ -146,6 +163,7 @@ pub mod t_@GID@ {
     use pest_typed_derive::TypedParser;
     #[derive(TypedParser)]
     #[grammar_inline = r##"@TEXT@"##]
+    @ATTRS@
     pub struct P;
 }
 '''
@@ -153,7 +171,7 @@ pub mod t_@GID@ {
 
 def derived_code(g):
     gid = g["gid"]
-    code = [fill(MOD_T, GID=gid, TEXT=g["text"])]
+    code = [fill(MOD_T, GID=gid, TEXT=g["text"], ATTRS=g.get("attrs", ""))]
     impls = [f"mod acc_{gid} {{", f"    use super::t_{gid} as g;", "    use g::generics;", "    use acc_common::AccShow;"]
     # the SeqN / ChoiceN types this module defines itself (reported by the generator): local types, so the trait of
     # acc_common can be implemented for them here; library arities are implemented in acc_common (build.rs)
@@ -259,8 +277,22 @@ pest = "=2.7.14"
     return where
 
 
+def dump_sexp(x):
+    return x if isinstance(x, str) else "(" + " ".join(dump_sexp(c) for c in x) + ")"
+
+
+def model_sexp(g):
+    """The grammar as the model driver reads it.  Under `#[pest_optimizer = false]` the generator walks the raw AST
+    (typed.rs:56-80, Model/GenOpts.lean `pickAst`), and with default boxing `genWith cfg o r = gen r`: the model gets
+    the raw expressions in the place of the optimized ones."""
+    if "pest_optimizer = false" not in g.get("attrs", ""):
+        return g["sexp"]
+    sx = corpus.parse_sexp(g["sexp"])
+    return dump_sexp(sx[:2] + [[r[0], r[1], r[2], r[4], r[4]] if isinstance(r, list) and r and r[0] == "rule" else r for r in sx[2:]])
+
+
 def sexp_lines(derived, raw):
-    return [g["sexp"] for g in derived] + [rawgen.grammar_sexp(g) for g in raw]
+    return [model_sexp(g) for g in derived] + [rawgen.grammar_sexp(g) for g in raw]
 
 
 # ---------------------------------------------------------------------------------------------
@@ -299,6 +331,10 @@ def arity_raw(seed=0, tag=""):
         rules.append(rule(f"sl_{n}", ("seq", "0", [elem(k) for k in range(n)])))
         # a repetition of the choice and of the sequence: iter_matched over nested accessors
         rules.append(rule(f"rc_{n}", ("rep", "1", 0, None, ("ref", f"cs_{n}", "INHERITED"))))
+        # silent (Expression) wrappers: no span of their own, so `==` between results of different sub-ranges is
+        # decided by the SeqN / ChoiceN / repetition impls alone (C18)
+        rules.append(rule(f"zq_{n}", ("seq", "1", [("ref", f"sq_{n}_e{k}", "INHERITED") for k in range(n)]), emit="Expression"))
+        rules.append(rule(f"zc_{n}", ("choice", [("ref", f"cs_{n}_a{k}", "INHERITED") for k in range(n)]), emit="Expression"))
         gs.append(dict(gid=f"ar{tag}{n}", rules=rules, skipped=WS_SKIP, designed="arity", n=n))
     return gs
 
@@ -316,6 +352,8 @@ def arity_derived(arities=(2, 3, 12, 13, 14, 15, 16)):
             lines.append(f"cs_{n}_a{k} = {{ {strs[k]} }}")
         lines.append(f"sq_{n} = {{ " + " ~ ".join(f"e{k % 3}" for k in range(n)) + " }")
         lines.append(f"rc_{n} = {{ cs_{n}* }}")
+        lines.append(f"zq_{n} = _{{ " + " ~ ".join(f"e{k % 3}" for k in range(n)) + " }")
+        lines.append(f"zc_{n} = _{{ " + " | ".join(f"cs_{n}_a{k}" for k in range(n)) + " }")
         lines.append('e0 = { "a" }')
         lines.append('e1 = { "b"? }')
         lines.append("e2 = { 'c'..'d' }")
@@ -353,6 +391,81 @@ def leaf_raw():
              rule("k_mix", ("seq", "1", [("ref", "l_insens", "INHERITED"), ("ref", "l_until", "INHERITED"), ("opt", ("ref", "l_any", "INHERITED"))])),
              ]
     return [dict(gid="lf", rules=rules, skipped=WS_SKIP, designed="leaf")]
+
+
+def containers_raw():
+    """Tuples, arrays (N >= 2), `RepeatMinMax` / `RepeatMin` with SKIP = 0 / 1, by direct instantiation, with
+    DISTINGUISHABLE elements (rule structs with spans, choices); `z*` are silent (Expression) wrappers."""
+    X, Y = ("ref", "x", "INHERITED"), ("ref", "y", "INHERITED")
+    rules = [ws_rule(),
+             rule("x", ("choice", [S("a"), S("b")])),
+             rule("y", S("c")),
+             rule("arr3", ("array", 3, X)),
+             rule("arr2p", ("array", 2, ("pair", X, ("opt", Y)))),
+             rule("pr", ("pair", X, Y)),
+             rule("prr", ("pair", ("array", 2, X), ("rep", "1", 0, 2, Y))),
+             rule("rmm13", ("rep", "1", 1, 3, X)),
+             rule("rmm22", ("rep", "0", 2, 2, X)),
+             rule("rmm03", ("rep", "1", 0, 3, ("seq", "1", [X, Y]))),
+             rule("rmin2", ("rep", "1", 2, None, X)),
+             rule("rmmc", ("rep", "1", 1, 3, ("choice", [S("ab"), S("a"), S("b")]))),
+             rule("rmma", ("rep", "0", 1, 2, ("array", 2, X)), atom="true"),
+             rule("zarr", ("array", 2, X), emit="Expression"),
+             rule("zpr", ("pair", X, ("opt", Y)), emit="Expression"),
+             rule("zrmm", ("rep", "1", 1, 3, X), emit="Expression"),
+             rule("zrmin", ("rep", "1", 1, None, X), emit="Expression"),
+             rule("zseq", ("seq", "1", [X, Y, X]), emit="Expression"),
+             ]
+    return [dict(gid="tp", rules=rules, skipped=WS_SKIP, designed="containers")]
+
+
+CNT_TEXT = '''x = { "a" | "b" }
+y = { "c" }
+c0 = { x{2} }
+c1 = { x{2,} }
+c2 = { x{,3} }
+c3 = { x{1,3} }
+c4 = { ("a" | "b" | "ab"){1,3} ~ y{2} }
+c5 = ${ x{2,3} ~ y{,2} }
+c6 = @{ x{2} }
+c7 = !{ (x ~ y){1,2} }
+z0 = _{ x{1,3} }
+z1 = _{ x{2} ~ y{,1} }
+z2 = _{ (x ~ y){2,} }
+z3 = _{ x ~ y ~ x }
+z4 = _{ (x | y)+ }
+WHITESPACE = _{ " " }
+'''
+
+STK_TEXT = '''t = { "ab" | "a" | "b" }
+k0 = { PUSH(t) ~ PUSH(t) ~ ((POP ~ "x") | (PEEK ~ "y") | (DROP ~ POP) | "a") }
+k0_p0 = { PUSH(t) ~ PUSH(t) ~ (POP ~ "x") }
+k0_p1 = { PUSH(t) ~ PUSH(t) ~ (PEEK ~ "y") }
+k0_p2 = { PUSH(t) ~ PUSH(t) ~ (DROP ~ POP) }
+k0_p3 = { PUSH(t) ~ PUSH(t) ~ "a" }
+k1 = { PUSH(t) ~ PUSH(t) ~ ((POP_ALL ~ "x") | (PEEK_ALL ~ "y") | (PEEK[0..1] ~ "x") | (DROP ~ DROP ~ "b") | PEEK) }
+k1_p0 = { PUSH(t) ~ PUSH(t) ~ (POP_ALL ~ "x") }
+k1_p1 = { PUSH(t) ~ PUSH(t) ~ (PEEK_ALL ~ "y") }
+k1_p2 = { PUSH(t) ~ PUSH(t) ~ (PEEK[0..1] ~ "x") }
+k1_p3 = { PUSH(t) ~ PUSH(t) ~ (DROP ~ DROP ~ "b") }
+k1_p4 = { PUSH(t) ~ PUSH(t) ~ PEEK }
+k2 = ${ PUSH(t) ~ ((POP ~ "x") | (PUSH("a") ~ POP ~ POP ~ "y") | (PEEK ~ PEEK)) }
+k2_p0 = ${ PUSH(t) ~ (POP ~ "x") }
+k2_p1 = ${ PUSH(t) ~ (PUSH("a") ~ POP ~ POP ~ "y") }
+k2_p2 = ${ PUSH(t) ~ (PEEK ~ PEEK) }
+'''
+STK_CHOICES = {"k0": 4, "k1": 5, "k2": 3}
+
+
+def counted_derived():
+    """Counted repetitions with distinguishable elements, once as the optimizer rewrites them (default options) and
+    once under `#[pest_optimizer = false]` (the generator then emits RepExact / RepMin / RepMax / RepMinMax, i.e.
+    `RepeatMinMax` / `RepeatMin<_, MIN>`); stack-reading alternatives with the stack-building prefix in every
+    alternative-as-a-rule (C17)."""
+    return [{"gid": "cnto", "text": CNT_TEXT, "designed": "counted"},
+            {"gid": "cntr", "text": CNT_TEXT, "designed": "counted", "attrs": "#[pest_optimizer = false]"},
+            {"gid": "stk", "text": STK_TEXT, "designed": "stack"},
+            {"gid": "stkr", "text": STK_TEXT, "designed": "stack", "attrs": "#[pest_optimizer = false]"}]
 
 
 UNI = ["LETTER", "NUMBER", "UPPERCASE_LETTER", "LOWERCASE_LETTER", "HAN", "PUNCTUATION", "ALPHABETIC", "WHITE_SPACE"]
@@ -433,5 +546,9 @@ n11 = { n5 ~ n5 ~ PUSH(n2) ~ n5 }
     return gs
 
 
-def build(outdir=WS):
-    return corpus.build_workspace(outdir)
+def build(outdir, derived):
+    env = dict(corpus.ENV, **build_env(derived))
+    if TARGET_DIR:
+        env["CARGO_TARGET_DIR"] = TARGET_DIR
+    p = subprocess.run(["cargo", "build", "--offline", "-q"], cwd=outdir, env=env, capture_output=True, text=True)
+    return p.returncode, p.stderr
